@@ -186,6 +186,7 @@ type vfProvider struct {
 	r          *vfRand
 	lastID     string
 	minted     []vfMinted
+	issuedRT   map[string]bool // refresh tokens this provider issued: anything else is refused, as a conformant provider would
 }
 
 // what the provider answered to a token-endpoint call (the model's `ans` input)
@@ -197,7 +198,7 @@ type vfProvAnswer struct {
 }
 
 func vfNewProvider(clientID string, endSession bool, r *vfRand) *vfProvider {
-	p := &vfProvider{clientID: clientID, endSession: endSession, codes: map[string]*vfAuthReq{}, r: r}
+	p := &vfProvider{clientID: clientID, endSession: endSession, codes: map[string]*vfAuthReq{}, r: r, issuedRT: map[string]bool{}}
 	mux := http.NewServeMux()
 	mux.HandleFunc("/.well-known/openid-configuration", func(w http.ResponseWriter, req *http.Request) {
 		p.mu.Lock()
@@ -274,6 +275,7 @@ func (p *vfProvider) newRefreshToken(n int) string {
 		}
 		s += base64.RawURLEncoding.EncodeToString(b)[:n-len(s)]
 	}
+	p.issuedRT[s] = true
 	return s
 }
 
@@ -313,6 +315,9 @@ func (p *vfProvider) handleToken(w http.ResponseWriter, req *http.Request) {
 			}
 		}
 		nonce = ar.Nonce
+	} else if !p.issuedRT[call.RefreshToken] {
+		p.fail(w, 400, "invalid_grant", true)
+		return
 	}
 	switch sc.Kind {
 	case "invalid_grant":
